@@ -278,6 +278,9 @@ func (s *s4) arm(i int) {
 					s.active["stall"] = true
 					simrt.Go0(e.Sim.Named(fmt.Sprintf("heal%d", k)), func() {
 						time.Sleep(ms(f.Ms))
+						// back under the scheduler before touching anything shared: a
+						// goroutine woken by the clock runs beside whoever else it woke
+						simrt.YieldHard(0)
 						l.Stall(dir, false)
 						s.active["stall"] = false
 					})
